@@ -15,6 +15,8 @@ class RecSection:
     def addValue(self, key, value, position):
         lineno = position[0] if isinstance(position, tuple) else None
         self.ctx.events.append(("key", self.serial, key, value, lineno))
+        if self.ctx.reenter is not None:
+            self.ctx.reenter()
 
 
 class RecordingContext:
@@ -23,6 +25,9 @@ class RecordingContext:
         self.serial = 0
         self.top = RecSection(0, self)
         self.parser = None      # set by the driver so line numbers are known
+        # a callable run from inside the callbacks (it parses other texts
+        # while this parse is in progress), or None
+        self.reenter = None
 
     def _lineno(self):
         return self.parser.lineno if self.parser is not None else None
@@ -32,6 +37,8 @@ class RecordingContext:
         s = RecSection(self.serial, self)
         self.events.append(("open", s.serial, container.serial, type_,
                             name if name else None, self._lineno()))
+        if self.reenter is not None:
+            self.reenter()
         return s
 
     def endSection(self, container, type_, name, newsect):
@@ -44,3 +51,13 @@ class RecordingContext:
     def includeConfiguration(self, section, newurl, defines):
         self.events.append(("include", section.serial, newurl,
                             self._lineno()))
+
+
+class FlatContext(RecordingContext):
+    """An application context whose sections are 'transparent': the child
+    of a container is the container itself (one recorder for everything)."""
+
+    def startSection(self, container, type_, name):
+        self.events.append(("open", 0, 0, type_, name if name else None,
+                            self._lineno()))
+        return container
